@@ -14,14 +14,19 @@ import (
 
 // Key universe (ascending; different lengths so that Size accounting is sensitive to the key) and
 // the two values (nil is stored as "present with an empty value" per the package contract).
-var keys = [4][]byte{[]byte("b"), []byte("dd"), []byte("f"), []byte("hhh")}
+// The first key is the EMPTY key (a valid key for the treap; it exercises every "is there a key"
+// test that confuses nil with zero length).
+var keys = [4][]byte{{}, []byte("dd"), []byte("f"), []byte("hhh")}
 var vals = [2][]byte{nil, []byte("xyz")}
 
 // probes: every universe key, one key below, between each pair and above (for Has/Get/Seek).
-var probes = [][]byte{[]byte("a"), []byte("b"), []byte("c"), []byte("dd"), []byte("e"), []byte("f"), []byte("g"), []byte("hhh"), []byte("i")}
+var probes = [][]byte{{}, []byte("a"), []byte("c"), []byte("dd"), []byte("e"), []byte("f"), []byte("g"), []byte("hhh"), []byte("i")}
+
+// absent: probes that are never keys of the universe
+var absent = [][]byte{[]byte("a"), []byte("c"), []byte("e"), []byte("g"), []byte("i")}
 
 // probeIdx[i] = index of probes[i] in keys, or -1.
-var probeIdx = []int{-1, 0, -1, 1, -1, 2, -1, 3, -1}
+var probeIdx = []int{0, -1, -1, 1, -1, 2, -1, 3, -1}
 
 // ranges for range-limited iterators (start inclusive, limit exclusive; nil = open).
 type rng struct{ s, l []byte }
@@ -195,7 +200,7 @@ func contentsLean(t *database.VerifTreapImmutable, m model, rot int) string {
 			return "get"
 		}
 	}
-	p := probes[(rot%5)*2] // a, c, e, g, i: never present
+	p := absent[rot%5]
 	if t.Has(p) || t.Get(p) != nil {
 		return "get-absent"
 	}
